@@ -29,7 +29,7 @@ class Gen:
         return " ".join(self.r.choice(self.words) for _ in range(self.r.randint(1, n)))
 
     def ind(self):
-        return self.r.choice(["", " ", "  ", "    ", "\t", " \t", "      "])
+        return self.r.choice(["", " ", "  ", "    ", "\t", " \t", "      ", "\u3000", " \u00a0", "\u2003 "] if self.r.random() < 0.15 else ["", " ", "  ", "    ", "\t", " \t", "      "])
 
     def pad(self):
         return self.r.choice(["", " ", "  ", "\t"])
@@ -38,6 +38,9 @@ class Gen:
         return self.r.choice(self.d[role])
 
     def noise(self):
+        if self.r.random() < 0.01:        # a long run of skip lines (look-ahead over many lines)
+            for _ in range(self.r.randint(33, 70)):
+                self.out.append(self.r.choice(["", "  # c", "\t"]))
         while self.r.random() < 0.2:
             self.out.append(self.r.choice(["", "  ", "#c" + self.txt(), "  # c", "\t"]))
 
